@@ -224,6 +224,35 @@ def gen_new_pkg(rng, force=None):
                     if rng.random() < 0.9:
                         continue
                 s["members"].insert(rng.randint(0, len(s["members"])), hand_embed(u, rng.random() < 0.4))
+    # one listed struct embedded by SEVERAL others, with accessors whose signatures mention named (non-universe) types: what
+    # the later embedders learn about the shared type must be as good as what the first one learnt (every -getset type is
+    # followed by a reload of the package: type-checker objects of an earlier load are not identical to those of a later one)
+    shared = force.get("shared_embed", getset and n >= 3 and rng.random() < 0.3)
+    if shared and n >= 3:
+        cands = [j for j in range(n) if not structs[j].get("tparams")]
+        if cands:
+            j = min(cands, key=lambda x: rank[x])
+            u = structs[j]
+            # fields of its own under names no other struct uses (promoted names stay unambiguous in every embedder)
+            pool = [("shName", "string"), ("shCount", "int"), ("shSeenAt", "time.Time"), ("shWait", "time.Duration"), ("shRef", "*Inner"),
+                    ("shBox", "Inner"), ("shMarks", "[]*Inner"), ("ShPublic", "int")]
+            picked = rng.sample(pool[2:7], rng.choice([1, 2, 3])) + rng.sample(pool[:2] + pool[7:], rng.choice([1, 2]))
+            rng.shuffle(picked)
+            u["members"] = []
+            for nm_, ty_ in picked:
+                f = hand_field(nm_, ty_, dstyle=0)
+                r = rng.random()
+                if not newgen.is_exported(nm_) and r < 0.3:
+                    f["get" if r < 0.15 else "set"] = True
+                u["members"].append(f)
+            k = 0
+            for i, s_ in sorted(enumerate(structs), key=lambda p_: rank[p_[0]]):
+                if i == j or rank[i] < rank[j] or u["name"] in embeds_of(s_) or k >= 3:
+                    continue
+                s_["members"].insert(rng.randint(0, len(s_["members"])), hand_embed(u, rng.random() < 0.3))
+                k += 1
+            force = dict(force)
+            force.setdefault("deps_first", rng.random() < 0.85)
     order = list(range(n))
     if force.get("deps_first", rng.random() < 0.7):
         order.sort(key=lambda i: rank[i])
@@ -231,7 +260,7 @@ def gen_new_pkg(rng, force=None):
         rng.shuffle(order)
     listed = [structs[i] for i in order]
     star = force.get("star", rng.random() < 0.35)
-    return build_new_pkg(listed, flags, star)
+    return build_new_pkg(listed, flags, star, extra_feats=["shared-embed"] if shared and n >= 3 else ())
 
 
 def deps_first_order(listed):
@@ -274,6 +303,13 @@ def hand_new_pkgs():
     top = hand_struct("Omega", [hand_embed(mid), hand_field("total")])
     tag = hand_struct("Zeta", [hand_field("label", "string")])
     out.append(build_new_pkg([e, mid, top, tag], ["-getset"], extra_feats=["hand-chain3"]))
+    # one shoot type embedded by three others (one through a pointer), its accessors mention time.Time, a package-local struct
+    # and a pointer to it; all four in one run, the shared type first
+    base = hand_struct("Core", [hand_field("createdAt", "time.Time"), hand_field("name", "string"), hand_field("ref", "*Inner"), hand_field("box", "Inner")])
+    out.append(build_new_pkg([base, hand_struct("Node", [hand_embed(base), hand_field("id")]),
+                              hand_struct("Omega", [hand_embed(base), hand_field("note", "string")]),
+                              hand_struct("Zeta", [hand_embed(base, ptr=True), hand_field("total")])],
+                             ["-getset", "-json"], extra_feats=["hand-shared-embed"]))
     # the same package imported under two names, each used by one type: the merged file needs both import specs
     # (MergeSources de-duplicates by path AND name)
     # (the alias text reaches generated code verbatim only through a `def=` expression, emitted by -opt's SetDefault)
@@ -486,7 +522,7 @@ def gen_enum_pkg(rng, force=None):
     flags = force.get("flags") or [f for f in ["-json", "-text", "-sql", "-bit"] if rng.random() < 0.3]
     out = ["package en", ""]
     bodies = {}
-    empty = rng.randrange(n) if rng.random() < 0.4 else -1
+    empty = rng.randrange(n) if force.get("empty", rng.random() < 0.4) else -1
     for i, nm in enumerate(names):
         base = rng.choice(["int", "uint", "int32", "uint32"])
         out.append("// %s is an enumeration" % nm)
@@ -508,12 +544,29 @@ def gen_enum_pkg(rng, force=None):
     src = "\n".join(out)
     if star:
         src = src.replace("package en\n", "package en\n\n//go:generate shoot enum %s\n" % " ".join(flags + ["-type=*"]), 1)
+    files = {"t.go": src}
     feats = {"enum": 1, "types-%d" % n: 1}
+    # constants of a type declared in ANOTHER file of the package than the type (a type's members are collected package-wide,
+    # whatever -file= says): for some types one more constant, for a type without constants in t.go possibly all of them
+    if force.get("multifile", rng.random() < 0.45):
+        ext = []
+        val = "1 << 6" if "-bit" in flags else "64"
+        for i, nm in enumerate(names):
+            if i == empty:
+                if rng.random() < 0.6:
+                    ext.append("const (\n\t%sOnly %s = %s\n\t%sAlso %s = %s\n)\n" % (nm, nm, "1 << 1" if "-bit" in flags else "2", nm, nm, "1 << 2" if "-bit" in flags else "4"))
+                    bodies[nm] = "gen"
+                    feats["enum-all-consts-elsewhere"] = 1
+            elif force.get("multifile") or rng.random() < 0.6:
+                ext.append("const %sExtra %s = %s\n" % (nm, nm, val))
+        if ext:
+            files["t_ext.go"] = "package en\n\n" + "\n".join(ext)
+            feats["enum-consts-in-other-file"] = 1
     for f in flags:
         feats["flag" + f] = 1
-    if empty >= 0:
+    if empty >= 0 and bodies[names[empty]] == "none":
         feats["enum-without-consts"] = 1
-    return {"cmd": "enum", "flags": flags, "files": {"t.go": src}, "cwd": ".", "gofile": "t.go", "types": names,
+    return {"cmd": "enum", "flags": flags, "files": files, "cwd": ".", "gofile": "t.go", "types": names,
             "all_types": names, "setup": [], "model": simple_model(bodies), "feats": feats, "star": star, "bodies": bodies}
 
 
@@ -530,20 +583,39 @@ def gen_rest_pkg(rng, force=None):
              ("Put", "/users/{id}", "id int, user *User", "(*User, *http.Response, error)"),
              ("Delete", "/users/{id}", "id int", "(*http.Response, error)")]
     bodies = {}
-    hdr = 0
+    hdr = dup = 0
     for k, nm in enumerate(names):
         out.append("// %s talks to a service" % nm)
         out.append("type %s interface {" % nm)
         # interface-level headers directive: must stay with its own client (earlier clients first, so that a leak would show)
         if (force or {}).get("headers", rng.random() < (0.7 if k == 0 else 0.3)):
             hdr += 1
-            out.append("\t//shoot: headers={X-Tenant-%d:%d},{Accept:text/x%d}" % (k, 100 + k, k))
+            items = ["{X-Tenant-%d:%d}" % (k, 100 + k), "{Accept:text/x%d}" % k]
+            if (force or {}).get("dupcase", rng.random() < 0.5):
+                # the same header in further spellings that differ only in case, each with its own value (and a default header
+                # in another spelling): the tool keeps every spelling as its own entry; nothing may depend on map iteration order
+                dup += 1
+                for sp in rng.sample(["x-tenant-%d", "X-TENANT-%d", "x-Tenant-%d"], rng.choice([1, 2])):
+                    items.insert(rng.randint(0, len(items)), "{%s:%d}" % (sp % k, 900 + 10 * k + len(items)))
+                items.insert(rng.randint(0, len(items)), "{accept:text/y%d}" % k)
+                if rng.random() < 0.5:
+                    items.append("{content-type:text/plain}")
+            out.append("\t//shoot: headers=" + ",".join(items))
         out.append("\tshoot.RestClient[%s]\n" % nm)
         ms = list(verbs)
         rng.shuffle(ms)
         for j, (v, p, params, res) in enumerate(ms[:rng.randint(1, 4)]):
             out.append("\t//shoot: %s(\"%s\")" % (v, p))
             out.append("\tM%d(ctx context.Context, %s) %s\n" % (j, params, res))
+        if (force or {}).get("dupcase", rng.random() < 0.3):
+            # the other k:v directive: parameters whose names differ only in case, each aliased to its own placeholder
+            dup += 1
+            pair = rng.choice([("key", "Key"), ("id", "ID"), ("tag", "tAg")])
+            al = ["{%s:a}" % pair[0], "{%s:b}" % pair[1]]
+            rng.shuffle(al)
+            out.append("\t//shoot: Get(\"/items/{a}/{b}\")")
+            out.append("\t//shoot: alias=" + ",".join(al))
+            out.append("\tM9(ctx context.Context, %s string, %s string) (*User, *http.Response, error)\n" % pair)
         out.append("}\n")
         bodies[nm] = "gen"
     star = rng.random() < 0.35
@@ -553,8 +625,13 @@ def gen_rest_pkg(rng, force=None):
     feats = {"rest": 1, "types-%d" % n: 1}
     if hdr:
         feats["rest-headers-directive"] = 1
-    return {"cmd": "rest", "flags": [], "files": {"t.go": src}, "cwd": ".", "gofile": "t.go", "types": names,
-            "all_types": names, "setup": [], "model": simple_model(bodies), "feats": feats, "star": star, "bodies": bodies}
+    if dup:
+        feats["rest-headers-case-duplicates"] = 1
+    pk = {"cmd": "rest", "flags": [], "files": {"t.go": src}, "cwd": ".", "gofile": "t.go", "types": names,
+          "all_types": names, "setup": [], "model": simple_model(bodies), "feats": feats, "star": star, "bodies": bodies}
+    if dup:
+        pk["nexec"] = 10      # a collision decided by map iteration order shows about every second process execution
+    return pk
 
 
 GENS = {"new": gen_new_pkg, "map": gen_map_pkg, "maprich": gen_map_rich_pkg, "enum": gen_enum_pkg, "rest": gen_rest_pkg}
